@@ -109,7 +109,8 @@ def run(ctx):
     if not model or not cases:
         ctx.tie(False)
         return
-    chunks = [cases[i:i + 40] for i in range(0, len(cases), 40)]
+    CH = 10 if ctx.tier == "quick" else 40
+    chunks = [cases[i:i + CH] for i in range(0, len(cases), CH)]
     results = ctx.coq_eval_many([("cases", PRELUDE % vlib.coq_list(ch, coq_case),
                                   {"model": "model_mismatches cases", "ref": "ref_mismatches cases", "known": "known_class cases"}) for ch in chunks])
     if any(r is None for r in results):
@@ -118,7 +119,7 @@ def run(ctx):
     model_bad, ref_bad, known = [], [], set()
     for ci, r in enumerate(results):
         def pairs(xs):
-            return [(ci * 40 + xs[q], xs[q + 1]) for q in range(0, len(xs) - 1, 2)]
+            return [(ci * CH + xs[q], xs[q + 1]) for q in range(0, len(xs) - 1, 2)]
         model_bad += pairs(r["model"])
         ref_bad += pairs(r["ref"])
         known |= set(pairs(r["known"]))
@@ -128,9 +129,11 @@ def run(ctx):
         c = cases[i]
         ctx.violation({"case_id": c["id"], "n": n, "write_cache": c["wc"], "disagrees_with": "model (coq/Shard/Mode43.v)", "first_disagreeing_step": j,
                        "steps": [show(s) for s in c["steps"][:j + 1]], "observed": c["steps"][j]})
-    # tie 2: every step answers as the REPORTED mode allows (reference). Disagreements in the excluded class of
-    # C43_consistent_partial (the last switch before the step failed) are the known finding; a crash is never excused
-    unknown = [(i, j) for (i, j) in ref_bad if (i, j) not in known or cases[i]["steps"][j]["cls"] == 9]
+    # tie 2: every step answers as the REPORTED mode allows (reference). Disagreements of OPERATIONS in the excluded class of
+    # C43_consistent_partial (the last switch before the step failed) are the known finding; a crash or a switch that
+    # misreports the mode is never excused
+    unknown = [(i, j) for (i, j) in ref_bad
+               if (i, j) not in known or cases[i]["steps"][j]["cls"] == 9 or cases[i]["steps"][j]["k"] in (0, 1)]
     ctx.tie(not unknown)
     seen = set()
     for (i, j) in ref_bad:
